@@ -67,9 +67,11 @@ func (l *implList) node(seq uint64) *core.Node[model.File] {
 	return n.SetV(model.File{Key: l.key, Seq: sequence.Seq(seq), ContentId: fmt.Sprint(seq)})
 }
 
-func (l *implList) push(seq uint64)             { l.tx.PushBack(l.node(seq)) }
-func (l *implList) lastBefore(p uint64) uint64 { return uint64(l.tx.File(l.key).LastBefore(sequence.Seq(p)).Seq) }
-func (l *implList) latest() uint64             { return uint64(l.tx.File(l.key).Latest().Seq) }
+func (l *implList) push(seq uint64) { l.tx.PushBack(l.node(seq)) }
+func (l *implList) lastBefore(p uint64) uint64 {
+	return uint64(l.tx.File(l.key).LastBefore(sequence.Seq(p)).Seq)
+}
+func (l *implList) latest() uint64 { return uint64(l.tx.File(l.key).Latest().Seq) }
 func (l *implList) popFront() (uint64, bool) {
 	n := l.tx.File(l.key).PopFront()
 	if n == nil {
